@@ -90,9 +90,9 @@ claim("C15",
       "Bounds: 1 range per field (thorough: 2 for times and days of month), years 1970..2099 (the century leap exceptions are outside); interval location absent, any fixed offset within +-14h, or a zone with one transition (spring-forward / fall-back at a fixed instant of 2024, instants of that year); the tz database itself is outside. Go's calendar arithmetic is trusted; "
       "the engine's calendar model is cross-checked natively on every sampled path. The HH:MM and name parsers and YAML are outside. " + TRUSTED, "4 C15")
 claim("C16",
-      "The UTF-8 matcher lexer/parser is executed on an arbitrary buffer of up to 4 (quick) / 6 (thorough) symbolic bytes: no panic, termination within the unwinding bound; printing a matcher "
-      "with any operator and an arbitrary valid UTF-8 value of up to 4/6 bytes and parsing it back is the identity (also in a list); match semantics for all operators with symbolic label values, "
-      "missing/empty labels, conjunction/disjunction and regex anchoring (compiled regexp programs run symbolically on values of up to 3 arbitrary bytes); the classic parser (list splitting, its regular expression, unescaping) on the printed form of 1-2 matchers with arbitrary valid UTF-8 values of up to 2/3 bytes; the fallback decision table on inputs covering every verdict combination of the two real parsers. The fallback decision table also for every input job=<v> with v any 1-3 bytes (both parsers on symbolic bytes); names outside the classic syntax round-trip through the quoted form.",
+      "The UTF-8 matcher lexer/parser is executed on an arbitrary buffer of up to 4 (quick) / 5 (thorough) symbolic bytes: no panic, termination within the unwinding bound; printing a matcher "
+      "with any operator and an arbitrary valid UTF-8 value of up to 4/5 bytes and parsing it back is the identity (also in a list); match semantics for all operators with symbolic label values, "
+      "missing/empty labels, conjunction/disjunction and regex anchoring (compiled regexp programs run symbolically on values of up to 3 arbitrary bytes); the classic parser (list splitting, its regular expression, unescaping) on the printed form of 1-2 matchers with arbitrary valid UTF-8 values of up to 2 bytes; the fallback decision table on inputs covering every verdict combination of the two real parsers. The fallback decision table also for every input job=<v> with v any 1-3 bytes (both parsers on symbolic bytes); names outside the classic syntax round-trip through the quoted form.",
       "Bit-vector arithmetic. Regexp compilation is native (patterns come from pools), matching is a symbolic backtracking interpreter of the compiled program; names with reserved "
       "characters (strconv.Quote) and inputs longer than the bound are outside. " + TRUSTED, "4 C16")
 claim("C17",
